@@ -35,7 +35,12 @@ fn f_c03(r: &CaseResult, d: &Diff) -> bool {
 fn f_c04(_r: &CaseResult, d: &Diff) -> bool {
     !d.observable.starts_with("flag")
 }
-fn f_c05(_r: &CaseResult, d: &Diff) -> bool {
+fn f_c05(r: &CaseResult, d: &Diff) -> bool {
+    if r.subject == "call-mem" {
+        // the probe is about WHICH address the target is loaded from: that shows in RIP. Where
+        // the return address is stored is C04's subject (and its recorded open finding).
+        return d.observable == "rip" || d.observable.starts_with("outcome:") || d.observable.starts_with("panic@");
+    }
     !d.observable.starts_with("flag")
 }
 fn f_c06(_r: &CaseResult, d: &Diff) -> bool {
